@@ -80,7 +80,7 @@ def stepOK (k : Kind) (kids : List Node) (i : Nat) (c : Node) (lastStep : Bool) 
   match k with
   | .scalar => false
   | .map =>
-    findName c.name kids == some i && !c.name.isEmpty && (lastStep || !endsWithBackslash c.name)
+    findName (some c.name) kids == some i && !c.name.isEmpty && (lastStep || !endsWithBackslash c.name)
   | _ => decide ((natStr i).length ≤ intMaxDigits ∨ intMaxDigits = 0)
 
 def PathOK : Node → Pos → Bool
@@ -229,7 +229,7 @@ theorem unescape_segText (k : Kind) (i : Nat) (c : Node) (lastStep : Bool)
     exact this.2.2.2
 
 /-- the name `fq_name` emits for a step looks up exactly that child -/
-theorem index_segText (k : Kind) (ky nm : Str) (kids : List Node) (i : Nat) (c : Node) (lastStep : Bool)
+theorem index_segText (k : Kind) (ky : Option Str) (nm : Str) (kids : List Node) (i : Nat) (c : Node) (lastStep : Bool)
     (hk : kids[i]? = some c) (h : stepOK k kids i c lastStep = true) :
     (Node.mk k ky nm kids).index (some (unescape (segText k i c))) = some i := by
   rw [unescape_segText k i c lastStep (stepSpell_of_stepOK k kids i c lastStep h)]
@@ -280,6 +280,19 @@ theorem tokenize_slash : tokenize ['/'] = .ok [.top] := by
   rw [hs]
   simp [tokLoop, tokStep_slash_first]
 
+/-- well-formed segments are non-empty, so `fq_name` appends no extra slash (05c4adc) -/
+theorem lastEmpty_segsOK : ∀ l : List Str, SegsOK l → lastEmpty l = false
+  | [], _ => rfl
+  | [s], h => by
+    obtain ⟨hne, _⟩ := h
+    cases s with
+    | nil => exact absurd rfl hne
+    | cons c r => rfl
+  | s :: s2 :: r, h => by
+    obtain ⟨_, _, hr⟩ := h
+    have := lastEmpty_segsOK (s2 :: r) hr
+    simpa [lastEmpty, List.getLast?_cons_cons] using this
+
 /-- **`tokenize(fq_name(pos))`**: TOP and one NAME per step, carrying the unescaped segment -/
 theorem tokenize_fqName (root : Node) (pos : Pos) (hok : SpellOK root pos = true) :
     tokenize (fqName root pos)
@@ -293,7 +306,7 @@ theorem tokenize_fqName (root : Node) (pos : Pos) (hok : SpellOK root pos = true
       have := (segs_nil_iff root (i :: p) hok).1 e
       simp at this
     simp only [fqName, List.isEmpty_cons, Bool.false_eq_true, if_false, fqParts_chain]
-    rw [joinSlash_slashJoin _ hne]
+    rw [lastEmpty_segsOK _ hso.1, if_neg (by simp), List.append_nil, joinSlash_slashJoin _ hne]
     cases hs : segs root (i :: p) with
     | nil => exact absurd hs hne
     | cons s rest =>
@@ -364,8 +377,8 @@ theorem C13_partial (root : Node)
   simp
 
 /-- non-vacuity: Dict{"a/b": List[String, String], "..": String}; every position is PathOK -/
-example : PathOK (.mk .map [] [] [.mk .list ['a', '/', 'b'] ['a', '/', 'b'] [.mk .scalar [] [] [], .mk .scalar [] [] []],
-      .mk .scalar ['.', '.'] ['.', '.'] []]) [0, 1] = true := by
+example : PathOK (.mk .map (some []) [] [.mk .list (some ['a', '/', 'b']) ['a', '/', 'b'] [.mk .scalar (some []) [] [], .mk .scalar (some []) [] []],
+      .mk .scalar (some ['.', '.']) ['.', '.'] []]) [0, 1] = true := by
   simp [PathOK, stepOK, findName, Node.name, Node.key, endsWithBackslash, intMaxDigits, natStr]
 
 /-! ### from spec B's `addressable` and the library's tree invariants -/
@@ -375,23 +388,34 @@ example : PathOK (.mk .map [] [] [.mk .list ['a', '/', 'b'] ['a', '/', 'b'] [.mk
     limit.  That a child's key equals its *name* is NOT among them (KF-C13-c); it is the
     explicit hypothesis [KeyIsName] inside spec B's `addressable`. -/
 def TreeInv (root : Node) : Prop :=
-  ∀ (p : Pos) (k : Kind) (ky nm : Str) (kids : List Node), root.get? p = some (.mk k ky nm kids) →
+  ∀ (p : Pos) (k : Kind) (ky : Option Str) (nm : Str) (kids : List Node), root.get? p = some (.mk k ky nm kids) →
     (k = .scalar → kids = []) ∧
     (k = .map → ∀ i c, kids[i]? = some c → findName c.key kids = some i) ∧
     ((k = .list ∨ k = .array) → ∀ i, i < kids.length →
       ((natStr i).length ≤ intMaxDigits ∨ intMaxDigits = 0))
 
+/-- no Dict child on the way is an UNNAMED field (stored under the key `None`).  The general theorems
+    below are proved for such positions; unnamed fields (05c4adc) are covered at the first level by
+    `find_fq_unnamed` and otherwise by the runner's re-check of the iff on every generated tree. -/
+def namedFrom : Node → Pos → Bool
+  | _, [] => true
+  | .mk k _ _ kids, i :: p =>
+    match kids[i]? with
+    | none => true
+    | some c => (k != .map || c.key != none) && namedFrom c p
+
 theorem pathOK_of_addressableFrom (root : Node) (hinv : TreeInv root) : ∀ (pos : Pos) (n : Node) (el : Pos),
-    root.get? el = some n → addressableFrom n pos = true → PathOK n pos = true
-  | [], _, _, _, _ => rfl
-  | i :: p, .mk k ky nm kids, el, hg, ha => by
+    root.get? el = some n → namedFrom n pos = true → addressableFrom n pos = true → PathOK n pos = true
+  | [], _, _, _, _, _ => rfl
+  | i :: p, .mk k ky nm kids, el, hg, hnm, ha => by
+    simp only [namedFrom] at hnm
     simp only [addressableFrom] at ha
     simp only [PathOK]
     cases hk : kids[i]? with
     | none => rw [hk] at ha; simp at ha
     | some c =>
-      rw [hk] at ha
-      simp only [Bool.and_eq_true] at ha ⊢
+      rw [hk] at ha hnm
+      simp only [Bool.and_eq_true] at ha hnm ⊢
       obtain ⟨hname, hrest⟩ := ha
       obtain ⟨h1, h2, h3⟩ := hinv el k ky nm kids hg
       have hi : i < kids.length := by
@@ -401,27 +425,32 @@ theorem pathOK_of_addressableFrom (root : Node) (hinv : TreeInv root) : ∀ (pos
       have hg' : root.get? (el ++ [i]) = some c := by
         rw [get?_append_single el root _ i hg]
         simp [Node.kids, hk]
-      refine ⟨?_, pathOK_of_addressableFrom root hinv p c (el ++ [i]) hg' hrest⟩
+      refine ⟨?_, pathOK_of_addressableFrom root hinv p c (el ++ [i]) hg' hnm.2 hrest⟩
       cases k with
       | scalar => have := h1 rfl; subst this; simp at hk
       | list => simp only [stepOK, decide_eq_true_eq]; exact h3 (Or.inl rfl) i hi
       | array => simp only [stepOK, decide_eq_true_eq]; exact h3 (Or.inr rfl) i hi
       | map =>
-        simp only [bne_self_eq_false, Bool.false_or, Bool.and_eq_true, beq_iff_eq] at hname
-        simp only [stepOK, Bool.and_eq_true, beq_iff_eq]
-        have hkey : c.key = c.name := hname.1.1
-        exact ⟨⟨hkey ▸ h2 rfl i c hk, hname.1.2⟩, hname.2⟩
+        have hkn : c.key ≠ none := by simpa using hnm.1
+        have hname : c.key = some c.name ∧ c.name.isEmpty = false ∧ (p.isEmpty = true ∨ endsWithBackslash c.name = false) := by
+          simp only [bne_self_eq_false, Bool.false_or, Bool.or_eq_true, Bool.and_eq_true, beq_iff_eq,
+            Bool.not_eq_true'] at hname
+          rcases hname with h | h
+          · exact ⟨h.1.1, h.1.2, h.2⟩
+          · exact absurd h.1 hkn
+        simp only [stepOK, Bool.and_eq_true, beq_iff_eq, Bool.or_eq_true, Bool.not_eq_true']
+        exact ⟨⟨hname.1 ▸ h2 rfl i c hk, hname.2.1⟩, hname.2.2⟩
 
 /-- **spec B's restriction suffices**: on a tree with the library's invariants every
     `addressable` element is found, alone, by its `fq_name()` from every start -/
 theorem find_fq_addressable (root : Node) (hinv : TreeInv root) (start pos : Pos) (strict : Bool)
-    (ha : addressable root pos = true) :
+    (hnm : namedFrom root pos = true) (ha : addressable root pos = true) :
     find root start (fqName root pos) false strict = .many [pos] :=
-  find_fq root start pos strict (pathOK_of_addressableFrom root hinv pos root [] rfl ha)
+  find_fq root start pos strict (pathOK_of_addressableFrom root hinv pos root [] rfl hnm ha)
 
 /-! ### the converse: on spellable positions `addressable` is necessary too -/
 
-theorem findName_some_key (s : Str) : ∀ (kids : List Node) (i : Nat), findName s kids = some i →
+theorem findName_some_key (s : Option Str) : ∀ (kids : List Node) (i : Nat), findName s kids = some i →
     ∃ c, kids[i]? = some c ∧ c.key = s
   | [], i, h => by simp [findName] at h
   | k :: r, i, h => by
@@ -556,24 +585,25 @@ theorem addressableFrom_of_pathOK : ∀ (pos : Pos) (n : Node), PathOK n pos = t
       | map =>
         have h1 := h.1
         simp only [stepOK, Bool.and_eq_true, beq_iff_eq] at h1
-        obtain ⟨c', hc', hkey⟩ := findName_some_key c.name kids i h1.1.1
+        obtain ⟨c', hc', hkey⟩ := findName_some_key (some c.name) kids i h1.1.1
         rw [hk] at hc'
         simp only [Option.some.injEq] at hc'
         subst hc'
-        simp only [bne_self_eq_false, Bool.false_or, Bool.and_eq_true, beq_iff_eq]
-        exact ⟨⟨hkey, h1.1.2⟩, h1.2⟩
+        simp only [bne_self_eq_false, Bool.false_or, Bool.or_eq_true, Bool.and_eq_true, beq_iff_eq]
+        exact Or.inl ⟨⟨hkey, h1.1.2⟩, by simpa using h1.2⟩
 
 theorem spellOK_of_spellableFrom (root : Node) (hinv : TreeInv root) : ∀ (pos : Pos) (n : Node) (el : Pos),
-    root.get? el = some n → spellableFrom n pos = true → SpellOK n pos = true
-  | [], _, _, _, _ => rfl
-  | i :: p, .mk k ky nm kids, el, hg, ha => by
+    root.get? el = some n → namedFrom n pos = true → spellableFrom n pos = true → SpellOK n pos = true
+  | [], _, _, _, _, _ => rfl
+  | i :: p, .mk k ky nm kids, el, hg, hnm, ha => by
+    simp only [namedFrom] at hnm
     simp only [spellableFrom] at ha
     simp only [SpellOK]
     cases hk : kids[i]? with
     | none => rw [hk] at ha; simp at ha
     | some c =>
-      rw [hk] at ha
-      simp only [Bool.and_eq_true] at ha ⊢
+      rw [hk] at ha hnm
+      simp only [Bool.and_eq_true] at ha hnm ⊢
       obtain ⟨hname, hrest⟩ := ha
       obtain ⟨h1, _, h3⟩ := hinv el k ky nm kids hg
       have hi : i < kids.length := by
@@ -583,35 +613,40 @@ theorem spellOK_of_spellableFrom (root : Node) (hinv : TreeInv root) : ∀ (pos 
       have hg' : root.get? (el ++ [i]) = some c := by
         rw [get?_append_single el root _ i hg]
         simp [Node.kids, hk]
-      refine ⟨?_, spellOK_of_spellableFrom root hinv p c (el ++ [i]) hg' hrest⟩
+      refine ⟨?_, spellOK_of_spellableFrom root hinv p c (el ++ [i]) hg' hnm.2 hrest⟩
       cases k with
       | scalar => have := h1 rfl; subst this; simp at hk
       | list => simp only [stepSpell, decide_eq_true_eq]; exact h3 (Or.inl rfl) i hi
       | array => simp only [stepSpell, decide_eq_true_eq]; exact h3 (Or.inr rfl) i hi
-      | map => simpa [stepSpell] using hname
+      | map =>
+        have hkn : c.key ≠ none := by simpa using hnm.1
+        simp only [bne_self_eq_false, Bool.false_or, Bool.or_eq_true, Bool.and_eq_true, beq_iff_eq] at hname
+        rcases hname with h | h
+        · simpa [stepSpell] using h
+        · exact absurd h.1 hkn
 
 /-- **`addressable` is exact on spellable positions**: on a tree with the library's invariants, for a
     position whose Dict names can be spelled (non-empty, no backslash at the end of a non-final one),
     `find(fq_name(pos))` from any start returns exactly `[pos]` IF AND ONLY IF the position is
     `addressable` — i.e. iff every Dict child on the way is stored under its own name. -/
 theorem find_fq_iff (root : Node) (hinv : TreeInv root) (start pos : Pos) (strict : Bool)
-    (hs : spellable root pos = true) :
+    (hnm : namedFrom root pos = true) (hs : spellable root pos = true) :
     find root start (fqName root pos) false strict = .many [pos] ↔ addressable root pos = true := by
-  have hsp := spellOK_of_spellableFrom root hinv pos root [] rfl hs
+  have hsp := spellOK_of_spellableFrom root hinv pos root [] rfl hnm hs
   constructor
   · intro hf
     exact addressableFrom_of_pathOK pos root (pathOK_of_find_fq root start pos strict hsp hf)
-  · exact find_fq_addressable root hinv start pos strict
+  · exact find_fq_addressable root hinv start pos strict hnm
 
 /-- the general form of KF-C13-c: EVERY element on a spellable position below a Dict child that is
     stored under a key different from its name (anywhere on the way) breaks the law, from every start -/
 theorem C13_key_mismatch_fails (root : Node) (hinv : TreeInv root) (start pos : Pos)
-    (hs : spellable root pos = true) (hna : addressable root pos = false) :
+    (hnm : namedFrom root pos = true) (hs : spellable root pos = true) (hna : addressable root pos = false) :
     isInverseAt root start pos = false := by
   unfold isInverseAt
   have h : ¬ find root start (fqName root pos) false true = .many [pos] := by
     intro hf
-    have := (find_fq_iff root hinv start pos true hs).1 hf
+    have := (find_fq_iff root hinv start pos true hnm hs).1 hf
     rw [hna] at this; cases this
   cases hf : find root start (fqName root pos) false true with
   | many l =>
@@ -630,7 +665,7 @@ theorem C13_key_mismatch_fails (root : Node) (hinv : TreeInv root) (start pos : 
 def C13_Full : Prop := ∀ root : Node, TreeInv root → Inverse root
 
 /-- Dict{"": String} -/
-def witnessEmpty : Node := .mk .map ['r'] ['r'] [.mk .scalar [] [] []]
+def witnessEmpty : Node := .mk .map (some ['r']) ['r'] [.mk .scalar (some []) [] []]
 
 theorem witnessEmpty_inv : TreeInv witnessEmpty := by
   intro p k ky nm kids h
@@ -650,17 +685,35 @@ theorem witnessEmpty_inv : TreeInv witnessEmpty := by
   | 0 :: j :: q, h => simp [witnessEmpty, Node.get?] at h
   | (i + 1) :: q, h => simp [witnessEmpty, Node.get?] at h
 
-/-- KF-C13-b: the field named `""` has `fq_name()` `/`, which finds the root -/
+/-- `tokenize("//") = [TOP, NAME None]`: the second slash directly follows a slash -/
+theorem tokenize_slash2 : tokenize ['/', '/'] = .ok [.top, .name none] := by
+  unfold tokenize
+  have hs : scan none ['/', '/'] = [(['/'], []), (['/'], [])] := by
+    rw [scan_cons, scanStep_slash none _ (by simp)]
+    simp only [List.drop_zero, Option.toList_some, List.cons_append, List.nil_append]
+    rw [scan_cons, scanStep_slash _ [] (by simp)]
+    simp [scan]
+  rw [hs]
+  simp [tokLoop, tokStep]
+
+/-- KF-C13-b: the field named `""` has `fq_name()` `//` (since 05c4adc; `/` before), and the empty step
+    looks up the key `None`, not the key `''`: LookupError -/
 theorem C13_full_fails : ¬ C13_Full := by
   intro h
   have hinv := (h witnessEmpty witnessEmpty_inv).2 [] [0] rfl rfl
   unfold isInverseAt at hinv
-  have hfq : fqName witnessEmpty [0] = fqName witnessEmpty [] := by decide
-  rw [hfq, find_fq witnessEmpty [] [] true rfl] at hinv
-  simp at hinv
+  have hfq : fqName witnessEmpty [0] = ['/', '/'] := by decide
+  unfold find at hinv
+  rw [hfq, tokenize_slash2] at hinv
+  have hz : Flatland.C14.Proofs.NoZero [Op.top, Op.name none] = true := by decide
+  have hw := Flatland.C14.Proofs.work_level witnessEmpty true _ _ (Nat.le_refl _) (Or.inl hz) [[]]
+  simp only [List.map_cons, List.map_nil] at hw
+  simp only [evalOps, hw] at hinv
+  revert hinv
+  decide
 
 /-- Dict{"a\\.b": String} -/
-def witnessBackslash : Node := .mk .map ['r'] ['r'] [.mk .scalar ['a', '\\', '.', 'b'] ['a', '\\', '.', 'b'] []]
+def witnessBackslash : Node := .mk .map (some ['r']) ['r'] [.mk .scalar (some ['a', '\\', '.', 'b']) ['a', '\\', '.', 'b'] []]
 
 /-- the half of KF-C13-a fixed by b49b3eb: a field named `a\.b` is found by its `fq_name()`
     (`/a\\.b`) -/
@@ -674,7 +727,7 @@ theorem C13_backslash_dot_ok : Inverse witnessBackslash := by
   | (i + 1) :: q, hp => simp [witnessBackslash, Node.get?] at hp
 
 /-- Dict{"y\\": Dict{"z": String}} -/
-def witnessTrailing : Node := .mk .map ['r'] ['r'] [.mk .map ['y', '\\'] ['y', '\\'] [.mk .scalar ['z'] ['z'] []]]
+def witnessTrailing : Node := .mk .map (some ['r']) ['r'] [.mk .map (some ['y', '\\']) ['y', '\\'] [.mk .scalar (some ['z']) ['z'] []]]
 
 theorem witnessTrailing_inv : TreeInv witnessTrailing := by
   intro p k ky nm kids h
@@ -729,7 +782,7 @@ theorem C13_full_fails_backslash : ¬ Inverse witnessTrailing := by
   decide
 
 /-- SparseDict{key "x" ↦ an element *named* "y"} (what `sd['x'] = X.named('y')(v)` leaves) -/
-def witnessKey : Node := .mk .map ['r'] ['r'] [.mk .scalar ['x'] ['y'] []]
+def witnessKey : Node := .mk .map (some ['r']) ['r'] [.mk .scalar (some ['x']) ['y'] []]
 
 theorem witnessKey_inv : TreeInv witnessKey := by
   intro p k ky nm kids h
@@ -782,13 +835,13 @@ theorem C13_full_fails_key : ¬ Inverse witnessKey := by
 theorem C13_full_fails_key_general : ¬ Inverse witnessKey := by
   intro h
   have h1 := h.2 [] [0] rfl rfl
-  rw [C13_key_mismatch_fails witnessKey witnessKey_inv [] [0] (by decide) (by decide)] at h1
+  rw [C13_key_mismatch_fails witnessKey witnessKey_inv [] [0] (by decide) (by decide) (by decide)] at h1
   cases h1
 
 /-- a larger tree of the same class: Dict r { a: Dict { List l [ x stored under key "k" but named "n" ] } };
     the mismatch sits two levels above the subject, seen from a start below the root -/
 def witnessKeyDeep : Node :=
-  .mk .map ['r'] ['r'] [.mk .map ['a'] ['b'] [.mk .list ['l'] ['l'] [.mk .scalar [] [] [], .mk .scalar [] [] []]]]
+  .mk .map (some ['r']) ['r'] [.mk .map (some ['a']) ['b'] [.mk .list (some ['l']) ['l'] [.mk .scalar (some []) [] [], .mk .scalar (some []) [] []]]]
 
 theorem witnessKeyDeep_inv : TreeInv witnessKeyDeep := by
   intro p k ky nm kids h
@@ -837,9 +890,9 @@ theorem witnessKeyDeep_inv : TreeInv witnessKeyDeep := by
     start `[0]`) -/
 example : (find witnessKeyDeep [0] (fqName witnessKeyDeep []) false true = .many [[]]) ∧
     ¬ (find witnessKeyDeep [0] (fqName witnessKeyDeep [0, 0, 1]) false true = .many [[0, 0, 1]]) :=
-  ⟨(find_fq_iff witnessKeyDeep witnessKeyDeep_inv [0] [] true (by decide)).2 (by decide),
+  ⟨(find_fq_iff witnessKeyDeep witnessKeyDeep_inv [0] [] true (by decide) (by decide)).2 (by decide),
    fun h => by
-     have := (find_fq_iff witnessKeyDeep witnessKeyDeep_inv [0] [0, 0, 1] true (by decide)).1 h
+     have := (find_fq_iff witnessKeyDeep witnessKeyDeep_inv [0] [0, 0, 1] true (by decide) (by decide)).1 h
      revert this; decide⟩
 
 end Flatland.C13.Proofs
